@@ -179,6 +179,10 @@ def container_census():
     for mod in lib.modules():
         mname = mod.__name__
         for name, val in list(vars(mod).items()):
+            if name == '__warningregistry__' and isinstance(val, dict):
+                # warnings.warn() with the input in the message text records every distinct text here, forever
+                sizes['%s.%s' % (mname, name)] = len(val)
+                continue
             if name.startswith('__') and name.endswith('__'):
                 continue
             if isinstance(val, types.ModuleType):
